@@ -37,6 +37,44 @@ PROPS = {
                                      "FindMatchingKey and the three KeySet implementations are hand-modelled; tied by this correspondence stream"],
         "assumptions": ["signature terms are symbolic: forging a signature without the key is impossible by definition of the term algebra"],
     },
+    "C03": {
+        "proof_module": "OidcModel.Proofs.C03",
+        "theorems": ["C03.c03_no_unregistered_redirect", "C03.step_inv", "C03.step_verdicts", "C03.validateRedirectURI_ok", "C03.validateRedirectURI_err",
+                     "C03.validateClient_ok", "C03.validateClient_err", "C03.checkURI_ok", "C03.native_ok", "C03.loopback_spec",
+                     "C03.authRequestError_writes", "C03.authRequestError_disabled", "C03.authRequestError_nil", "C03.authResponseURL_base",
+                     "C03.tryErrorRedirect_ok", "C03.webAuthorize_ok", "C03.providerAuthorize_writes", "C03.legacyAuthorize_writes",
+                     "C03.authorizeCallback_writes", "C03.redirectURI_error_disabled", "C03.redirectDisabled_table",
+                     "C03.authorize_skeleton_pinned", "C03.authorizeHandler_skeleton_pinned",
+                     "C03.loopback_userinfo_witness", "C03.loopback_fragment_witness", "C03.scheme_case_witness", "C03.registered_strict_of_weak"],
+        "cases": {"quick": 600, "thorough": 20000},
+        "rule": "histories against the real /authorize and /authorize/callback handlers of both routers (n = number of histories, 5-12 authorization requests each, "
+                "every line one HTTP request): 3-6 generated registrations per history (web / user-agent / native x dev mode x 4 auth methods x response types x 1-4 "
+                "registered URIs from https, plain-http, loopback v4/v6/localhost with and without port and query, custom-scheme, oddly spelled and unparseable URIs "
+                "x optional globs incl. malformed patterns); requested redirect_uri = registered, 12 near-miss kinds (slash, case, suffix, query, fragment, userinfo, "
+                "scheme swap, host prefix/suffix tricks, truncation, leading space), 12 loopback-variant kinds (port, host spelling, scheme, userinfo, fragment, path, "
+                "query, escaped path, non-loopback look-alikes, host in userinfo), glob targets, missing, foreign pool (javascript:, data:, //host, userinfo tricks), "
+                "unknown client; x response_type (code / implicit / unsupported / missing) x response_mode x missing scope x prompt (none, none+login) x id_token_hint "
+                "x request parameter (unsupported; in 40% of the histories request objects are supported and 22% of the requests carry a really signed request object that "
+                "overrides redirect_uri / state / response_mode, 25% of them invalid: foreign key, wrong aud, wrong iss) x undecodable form x injected storage failures (GetClientByClientID, CreateAuthRequest, AuthRequestByID, SaveAuthCode, SigningKey; "
+                "plain, oidc error, redirect-disabled oidc error); then login and callback (before login, after login, repeated, unknown / missing id). "
+                "Oracle: what net/url, net.ParseIP and doublestar answered for the strings of the request is on the line; Location / form action parsed by net/url. "
+                "non-trivial = every class except a direct page at /authorize; distinct = class x input",
+        "trivial_class": r"(authorize:.*:page|reset:.*|login:.*)",
+        "trusted_base": ["net/url.Parse, net.ParseIP(..).IsLoopback and doublestar.Match are oracles: the theorems hold for ALL their behaviours; what they answer on the "
+                         "generated strings is recorded from the real libraries",
+                         "op.Authorize (closure) and webServer.authorizeHandler are modelled by hand in Model/AuthzFlow.lean; their statement skeletons are regenerated and "
+                         "pinned (authorize_skeleton_pinned, authorizeHandler_skeleton_pinned) and they are tied by this stream; every other function on the path is translated",
+                         "storage = any functions (arbitrary failures) over constant registrations; stored requests keep client, redirect_uri, response type and mode "
+                         "(refstore does; a storage that rewrites redirect_uri is outside the contract)",
+                         "http.Redirect / http.Error / MarshalJSONWithStatus / html/template (form_post) are library calls: Location = the URL handed to http.Redirect",
+                         "request-object processing (ParseRequestObject) is an arbitrary function in the theorems; the stream mints real request objects, the driver's "
+                         "twin applies the overrides the harness put into them (signature validity by construction: right key / foreign key / wrong aud / wrong iss)"],
+        "assumptions": ["weak reading proved for all inputs: scheme = literal prefix http:// / https://, native loopback variant = equal decoded path and raw query; "
+                        "the strict reading (DESIGN 4.21) is what the monitor evaluates on observed responses: its two deviations are known findings F-C03b / F-C03c "
+                        "with Lean witnesses",
+                        "a redirect's destination is compared as (scheme, userinfo, host[:port], path) of net/url's parse; the round trip of the response "
+                        "parameters is C11's subject"],
+    },
     "C12": {
         "proof_module": "OidcModel.Proofs.C12",
         "theorems": ["C12.c12_registered_wins", "C12.c12_custom_survives", "C12.c12_merge_monitor", "C12.c12_audience_exact",
